@@ -66,7 +66,10 @@ func callsOnField(fn *ssa.Function, f *types.Var, name string) []ssa.CallInstruc
 	})
 }
 
-func runC13(c *Checker) {
+func runC13(c *Checker) { ruleKA(c) }
+
+// ruleKA: the keepalive wiring (shared by C13 and C06).
+func ruleKA(c *Checker) {
 	w := c.w
 	sl := w.Func("(*gbn.GoBackNConn).sendPacketsForever")
 	rl := w.Func("(*gbn.GoBackNConn).receivePacketsForever")
@@ -135,19 +138,86 @@ func runC13(c *Checker) {
 		name := fmt.Sprintf("%s|ping-leg-%d", fnName(leg.fn), i+1)
 		inLeg := func(b *ssa.BasicBlock) bool { return b == leg.body || leg.body.Dominates(b) }
 		first := leg.body.Instrs[0]
+		legFn := leg.fn
+		leavesFn := func(avoid func(ssa.Instruction) bool) bool {
+			if avoid(first) {
+				return false
+			}
+			return pathToBlocks(first, func(b *ssa.BasicBlock) bool { return !inLeg(b) }, avoid) != nil
+		}
+		// the leg may delegate to a helper method: then the helper's body is the region to judge
+		direct := false
+		for _, ci := range callsOnField(leg.fn, fPong, "Resume") {
+			if inLeg(ci.Block()) {
+				direct = true
+			}
+		}
+		if !direct {
+			var helperCall ssa.CallInstruction
+			var helper *ssa.Function
+			for _, ci := range findCalls(leg.fn, func(ci ssa.CallInstruction) bool { return inLeg(ci.Block()) }) {
+				for _, cal := range w.Callees(ci) {
+					if w.pkgShort(cal) == targetGBN && len(callsOnField(cal, fPong, "Resume")) > 0 {
+						helperCall, helper = ci, cal
+					}
+				}
+			}
+			if helper != nil {
+				// the helper is called on every path through the leg and its error is propagated
+				callAvoid := func(in ssa.Instruction) bool { return in == ssa.Instruction(helperCall) }
+				okCall := !leavesFn(callAvoid)
+				if hc, ok := helperCall.(*ssa.Call); ok && helper.Signature.Results().Len() > 0 {
+					e, _ := errCheckedAndReturned(hc, helper.Signature.Results().Len()-1)
+					okCall = okCall && e
+				}
+				c.decide(okCall, "KA-2", name+"|delegates to "+fnName(helper), instrPos(helperCall), "the leg always calls the helper and returns its error",
+					"the ping leg does not always run its keepalive helper (or drops its error)")
+				legFn = helper
+				first = helper.Blocks[0].Instrs[0]
+				inLeg = func(b *ssa.BasicBlock) bool { return b.Parent() == helper }
+				leavesFn = func(avoid func(ssa.Instruction) bool) bool {
+					if avoid(first) {
+						return false
+					}
+					return pathToReturn(first, func(r *ssa.Return) bool {
+						if len(r.Results) == 0 {
+							return true
+						}
+						for _, v := range expandValues(r.Results[len(r.Results)-1]) {
+							if isNilConst(v) {
+								return true
+							}
+						}
+						return false
+					}, avoid) != nil
+				}
+				// the helper must only serve ping legs
+				for _, s := range w.CG().callers[helper] {
+					isLeg := false
+					for _, l2 := range pingLegs {
+						if s.Caller == l2.fn && (s.Instr.Block() == l2.body || l2.body.Dominates(s.Instr.Block())) {
+							isLeg = true
+						}
+					}
+					if !isLeg {
+						c.fail("KA-2", "pongTicker.Resume|helper "+fnName(helper)+" called from "+fnName(s.Caller), instrPos(s.Instr), "the keepalive helper that arms the pong timer is called outside a ping leg")
+					}
+				}
+			}
+		}
 		var resets, resumes, pingResets []ssa.CallInstruction
-		for _, ci := range callsOnField(leg.fn, fPong, "Reset") {
+		for _, ci := range callsOnField(legFn, fPong, "Reset") {
 			if inLeg(ci.Block()) {
 				resets = append(resets, ci)
 			}
 		}
-		for _, ci := range callsOnField(leg.fn, fPong, "Resume") {
+		for _, ci := range callsOnField(legFn, fPong, "Resume") {
 			if inLeg(ci.Block()) {
 				resumes = append(resumes, ci)
 				resumeAllowed[ci] = true
 			}
 		}
-		for _, ci := range callsOnField(leg.fn, fPing, "Reset") {
+		for _, ci := range callsOnField(legFn, fPing, "Reset") {
 			if inLeg(ci.Block()) {
 				pingResets = append(pingResets, ci)
 			}
@@ -162,12 +232,7 @@ func runC13(c *Checker) {
 				return false
 			}
 		}
-		leaves := func(avoid func(ssa.Instruction) bool) bool {
-			if avoid(first) {
-				return false
-			}
-			return pathToBlocks(first, func(b *ssa.BasicBlock) bool { return !inLeg(b) }, avoid) != nil
-		}
+		leaves := leavesFn
 		c.decide(len(resumes) > 0 && !leaves(isOneOf(resumes)), "KA-2", name+"|pong armed (Resume)", instrPos(first),
 			"pongTicker.Resume() on every path through the leg", "a ping tick can be consumed without arming the pong timer: a dead peer is never timed out")
 		c.decide(len(resets) > 0 && !leaves(isOneOf(resets)), "KA-2", name+"|pong restarted (Reset)", instrPos(first),
@@ -188,7 +253,7 @@ func runC13(c *Checker) {
 		c.decide(okOrder, "KA-2", name+"|Reset before Resume", instrPos(first), "the pong ticker is restarted before it is activated", "the pong ticker is activated before it is restarted: a stale tick can time out a live peer")
 		// pong polled first
 		polled := false
-		allInstrs(leg.fn, func(in ssa.Instruction) {
+		allInstrs(legFn, func(in ssa.Instruction) {
 			sel, ok := in.(*ssa.Select)
 			if !ok || sel.Blocking || !inLeg(sel.Block()) {
 				return
